@@ -589,3 +589,20 @@ GROUPS["p8"] = [
     E("p-reworded-message", ["C17"], "harper-core/src/linting/correct_number_suffix.rs",
       "This number needs a different suffix to sound right.", "This number takes a different suffix.", None),
 ]
+
+GROUPS["p7"] += [
+    # the case mapping behind a helper
+    E("p-c18-helper", ["C18"], "harper-core/src/title_case.rs",
+      "            output[word.span.start - start_index] =\n                output[word.span.start - start_index].to_ascii_uppercase();",
+      "            output[word.span.start - start_index] = upper(output[word.span.start - start_index]);", None),
+    E("p-c18-helper-def", ["C18"], "harper-core/src/title_case.rs",
+      "/// Determines whether a token should be capitalized.",
+      "fn upper(c: char) -> char {\n    c.to_ascii_uppercase()\n}\n\n/// Determines whether a token should be capitalized.", None),
+]
+GROUPS["g16"] += [
+    # full Unicode case mapping truncated to its first character (the shape of seeded/C18-b)
+    E("c18-unicode-upper", ["C18"], "harper-core/src/title_case.rs",
+      "                output[word.span.start - start_index].to_ascii_uppercase();",
+      "                output[word.span.start - start_index].to_uppercase().next().unwrap();",
+      "R-C18-caseonly:make_title_case:store"),
+]
